@@ -1,10 +1,33 @@
 /- Line protocol for the C04 file-render glue model.
    in : `<chan names> | none or <ch> <name,name> <num/den> ; ... | <gain num/den> | <fail 0/1> | <M> | <blocks>`
         blocks: `#`-separated blocks, `;`-separated frames, space-separated samples `num/den`; an empty block is `-`
-   out: `n=<nChannels> failed=<0/1> over=<0/1> | <frame codes ...> ; ...`  or `bad-op` -/
+   out: `n=<nChannels> failed=<0/1> over=<0/1> | <frame codes ...> ; ...`  or `bad-op`
+
+   Lines starting with `@` address the speakers-file / selection model (`Model/FileRenderLayout.lean`); all
+   arguments are blank-separated tokens:
+     rational  `num/den` or `int`;   string `=` followed by `.`-separated decimal code points (`=` alone: empty)
+     Y         `n` | `t` | `f` | `i <int>` | `q <rat>` | `s <string>` | `l <k> <Y>*k` | `d <k> (<string> <Y>)*k`
+     screen    `N` | `P <aspect> <az> <el> <r> <width>` | `C <aspect> <X> <Y> <Z> <width>`
+     channels  `<k> (<string name> <az> <el> <r> <azLo> <azHi> <elLo> <elHi>)*k`
+   ops:
+     `@load <dflt screen> <Y>`                         load_real_layout
+         -> `ok speakers=N|<k> (<Y channel> <k'> <Y name>*k' <pos: N | az el r> <Y gain>)*k screen=<screen>` | `reject` | `unsupported`
+     `@out <dflt screen> <layout screen> <channels> <N | F <Y>>`   load_output_layout
+         -> `ok n=<n> upmix=N|<rows> <cols> <rat>* pos=<az el r>* screen=<screen> warn=<k> <warning>*` | `reject` | `unsupported`
+         warning: `az <string>` | `el <string>` | `nm <string>` | `mo <string> <k> <nat>*` | `rm <nat> <k> <string>*`
+     `@check <k> <string>*k <rows> <cols> <rat>*`     check_upmix_matrix -> `<k> <warning>*`
+     `@inside <x> <start> <end>`                       inside_angle_range -> `0` | `1`
+     `@lookup <k> (<string id | -> <p|o|x>)*k <p|o> <string id | ->`   lookup_adm_element
+         -> `none` | `elem <index>` | `key` | `value`
+     `@items <k> (<id|-> <kind>)*k <string programme id | -> <m> <string comp id>*m <string mode | ->`   get_rendering_items
+         with recording parameters -> `select <index|none> <m> <index>* pre <mode>` | `key` | `value` | `assert`
+     `@parts <blocksize> <n>`                          block lengths of iter_sample_blocks over n frames -> `<k> <len>*`
+-/
 import Earverif.Model.FileRender
+import Earverif.Model.FileRenderLayout
 import Earverif.Driver.Util
 open Earverif.FileRender Earverif.Driver
+open Earverif.FileRenderLayout
 
 def parseRat? (s : String) : Option Rat :=
   match s.splitOn "/" with
@@ -32,7 +55,228 @@ def parseBlock? (s : String) : Option (List (List Rat)) :=
   if words s == ["-"] then some []
   else ((s.splitOn ";").filter (fun t => words t ≠ [])).mapM parseFrame?
 
+/-! ### `@` ops: speakers-file and selection model -/
+
+abbrev P (α : Type) := List String → Option (α × List String)
+
+def pStr : P String
+  | t :: rest =>
+    if t.startsWith "=" then
+      let body := (t.drop 1).toString
+      if body == "" then some ("", rest)
+      else do
+        let cps ← (body.splitOn ".").mapM (·.toNat?)
+        some (String.ofList (cps.map Char.ofNat), rest)
+    else none
+  | [] => none
+
+def pRat : P Rat
+  | t :: rest => do some (← parseRat? t, rest)
+  | [] => none
+
+def pNat : P Nat
+  | t :: rest => do some (← t.toNat?, rest)
+  | [] => none
+
+def pMany {α : Type} (p : P α) : Nat → P (List α)
+  | 0, ts => some ([], ts)
+  | k + 1, ts => do
+    let (x, ts) ← p ts
+    let (xs, ts) ← pMany p k ts
+    some (x :: xs, ts)
+
+partial def pY : P Y
+  | "n" :: rest => some (.null, rest)
+  | "t" :: rest => some (.bool true, rest)
+  | "f" :: rest => some (.bool false, rest)
+  | "i" :: v :: rest => do some (.int (← v.toInt?), rest)
+  | "q" :: v :: rest => do some (.num (← parseRat? v), rest)
+  | "s" :: rest => do let (s, rest) ← pStr rest; some (.str s, rest)
+  | "l" :: k :: rest => do
+    let (xs, rest) ← pMany pY (← k.toNat?) rest
+    some (.list xs, rest)
+  | "d" :: k :: rest => do
+    let (kvs, rest) ← pMany (fun ts => do
+      let (key, ts) ← pStr ts
+      let (v, ts) ← pY ts
+      some ((key, v), ts)) (← k.toNat?) rest
+    some (.dict kvs, rest)
+  | _ => none
+
+def pScreen : P (Option Screen)
+  | "N" :: rest => some (none, rest)
+  | "P" :: rest => do
+    let (v, rest) ← pMany pRat 5 rest
+    match v with
+    | [a, az, el, r, w] => some (some (.polar a ⟨az, el, r⟩ w), rest)
+    | _ => none
+  | "C" :: rest => do
+    let (v, rest) ← pMany pRat 5 rest
+    match v with
+    | [a, x, y, z, w] => some (some (.cart a ⟨x, y, z⟩ w), rest)
+    | _ => none
+  | _ => none
+
+def pChannel : P Channel := fun ts => do
+  let (name, ts) ← pStr ts
+  let (v, ts) ← pMany pRat 7 ts
+  match v with
+  | [az, el, r, a0, a1, e0, e1] => some (⟨name, ⟨az, el, r⟩, a0, a1, e0, e1⟩, ts)
+  | _ => none
+
+def pChannels : P (List Channel) := fun ts => do
+  let (k, ts) ← pNat ts
+  pMany pChannel k ts
+
+def showRat (q : Rat) : String := s!"{q.num}/{q.den}"
+
+def showStr (s : String) : String :=
+  "=" ++ String.intercalate "." (s.toList.map fun c => toString c.toNat)
+
+partial def showY : Y → String
+  | .null => "n"
+  | .bool true => "t"
+  | .bool false => "f"
+  | .int i => s!"i {i}"
+  | .num q => s!"q {showRat q}"
+  | .str s => s!"s {showStr s}"
+  | .list xs => String.intercalate " " (s!"l {xs.length}" :: xs.map showY)
+  | .dict kvs => String.intercalate " " (s!"d {kvs.length}" :: kvs.map fun kv => showStr kv.1 ++ " " ++ showY kv.2)
+
+def showPos (p : PolarPos) : String := s!"{showRat p.az} {showRat p.el} {showRat p.r}"
+
+def showScreen : Option Screen → String
+  | none => "N"
+  | some (.polar a c w) => s!"P {showRat a} {showPos c} {showRat w}"
+  | some (.cart a c w) => s!"C {showRat a} {showRat c.X} {showRat c.Y} {showRat c.Z} {showRat w}"
+
+def showSpeaker (s : RSpeaker) : String :=
+  String.intercalate " " ([showY s.channel, toString s.names.length] ++ s.names.map showY ++
+    [match s.pos with | none => "N" | some p => showPos p, showY s.gain])
+
+def showWarn : Warn → String
+  | .az n => s!"az {showStr n}"
+  | .el n => s!"el {showStr n}"
+  | .notMapped n => s!"nm {showStr n}"
+  | .multiOut n outs => String.intercalate " " ([s!"mo {showStr n} {outs.length}"] ++ outs.map toString)
+  | .rowMulti o names => String.intercalate " " ([s!"rm {o} {names.length}"] ++ names.map showStr)
+
+def showWarns (ws : List Warn) : String :=
+  String.intercalate " " (toString ws.length :: ws.map showWarn)
+
+def showErr : Err → String
+  | .reject _ => "reject"
+  | .unsupported _ => "unsupported"
+
+def showMatrix (U : List (List Rat)) (cols : Nat) : String :=
+  String.intercalate " " ([toString U.length, toString cols] ++ (U.flatten.map showRat))
+
+def pKind : P Kind
+  | "p" :: rest => some (.programme, rest)
+  | "o" :: rest => some (.object, rest)
+  | "x" :: rest => some (.other, rest)
+  | _ => none
+
+def pOptStr : P (Option String)
+  | "-" :: rest => some (none, rest)
+  | ts => do let (s, ts) ← pStr ts; some (some s, ts)
+
+def pAdm : P (List Elem) := fun ts => do
+  let (k, ts) ← pNat ts
+  pMany (fun ts => do
+    let (i, ts) ← pOptStr ts
+    let (kd, ts) ← pKind ts
+    some (⟨i, kd⟩, ts)) k ts
+
+def showLErr : LErr → String
+  | .keyError _ => "key"
+  | .valueError _ => "value"
+  | .assertion => "assert"
+  | .inner m => "inner " ++ m
+
+def indexOf (adm : List Elem) (e : Elem) : String :=
+  match adm.findIdx? (· == e) with
+  | some i => toString i
+  | none => "?"
+
+def answerAt (ts : List String) : Option String :=
+  match ts with
+  | "@load" :: rest => do
+    let (dflt, rest) ← pScreen rest
+    let dflt ← dflt
+    let (y, rest) ← pY rest
+    if rest ≠ [] then none else
+    match loadRealLayout dflt y with
+    | .error e => some (showErr e)
+    | .ok rl =>
+      let sp := match rl.speakers with
+        | none => "N"
+        | some sp => String.intercalate " " (toString sp.length :: sp.map showSpeaker)
+      some s!"ok speakers={sp} screen={showScreen rl.screen}"
+  | "@out" :: rest => do
+    let (dflt, rest) ← pScreen rest
+    let dflt ← dflt
+    let (ls, rest) ← pScreen rest
+    let (chans, rest) ← pChannels rest
+    let (file, rest) ← (match rest with
+      | "N" :: rest => some (none, rest)
+      | "F" :: rest => do let (y, rest) ← pY rest; some (some y, rest)
+      | _ => none)
+    if rest ≠ [] then none else
+    match loadOutputLayout dflt ls chans file with
+    | .error e => some (showErr e)
+    | .ok o =>
+      let up := match o.upmix with
+        | none => "N"
+        | some U => showMatrix U chans.length
+      let pos := String.intercalate " " (o.chans.map fun c => showPos c.pos)
+      some s!"ok n={o.nChannels} upmix={up} pos={pos} screen={showScreen o.screen} warn={showWarns o.warnings}"
+  | "@check" :: rest => do
+    let (k, rest) ← pNat rest
+    let (names, rest) ← pMany pStr k rest
+    let (r, rest) ← pNat rest
+    let (c, rest) ← pNat rest
+    let (es, rest) ← pMany pRat (r * c) rest
+    if rest ≠ [] then none else
+    if c ≠ k then none else
+    let U := (List.range r).map fun o => (es.drop (o * c)).take c
+    some (showWarns (checkUpmix names U))
+  | ["@inside", x, s, e] => do
+    some (if insideAngleRange (← parseRat? x) (← parseRat? s) (← parseRat? e) then "1" else "0")
+  | "@lookup" :: rest => do
+    let (adm, rest) ← pAdm rest
+    let (kd, rest) ← pKind rest
+    let (i, rest) ← pOptStr rest
+    if rest ≠ [] then none else
+    match lookupAdmElement adm i kd with
+    | .error e => some (showLErr e)
+    | .ok none => some "none"
+    | .ok (some e) => some s!"elem {indexOf adm e}"
+  | "@items" :: rest => do
+    let (adm, rest) ← pAdm rest
+    let (prog, rest) ← pOptStr rest
+    let (m, rest) ← pNat rest
+    let (comps, rest) ← pMany pStr m rest
+    let (mode, rest) ← pOptStr rest
+    if rest ≠ [] then none else
+    -- recording parameters: the "items" are the trace of calls made so far
+    let select := fun (p : Option Elem) (cs : List Elem) =>
+      (Except.ok (String.intercalate " " (["select", (match p with | none => "none" | some e => indexOf adm e),
+        toString cs.length] ++ cs.map (indexOf adm))) : Except LErr String)
+    match getRenderingItems select (fun t => .ok (t ++ " pre")) (fun t => .ok (t ++ " to_cartesian"))
+        (fun t => .ok (t ++ " to_polar")) adm prog comps mode with
+    | .error e => some (showLErr e)
+    | .ok t => some (if mode.isNone then t ++ " none" else t)
+  | ["@parts", bs, n] => do
+    let bs ← bs.toNat?
+    let n ← n.toNat?
+    if bs = 0 then none else
+    let parts := fileParts bs (List.replicate n ())
+    some (String.intercalate " " (toString parts.length :: parts.map fun p => toString p.length))
+  | _ => none
+
 def answer (line : String) : String :=
+  if line.startsWith "@" then (answerAt (words line)).getD "bad-op" else
   match line.splitOn "|" with
   | [chans, sp, gain, fail, m, blocks] =>
     match parseSpeakers? sp, parseRat? (String.join (words gain)), (words fail), (String.join (words m)).toInt?,
